@@ -86,6 +86,64 @@ def gen_cases(tier, seed):
                     exp += v.to_bytes(width, "big")
             yield {"id": "%s/list/%d" % (mn, k), "mn": mn, "operand": ",".join(items), "expect": None if bad else exp.hex(),
                    "form": "%s.%s.%s" % (mn.lower(), "list" if ln > 1 else "single", "over" if bad else ("neg" if any(x.startswith("-") for x in items) else "lit")), "pre": [], "post": []}
+    # lists whose elements mix literals, negative numbers, EQU symbols (defined before or after use), labels (before and after the
+    # statement) and two-term expressions over them; label addresses follow from the layout: LB = org, the list at org+1, LA after ZZ9
+    for mn, width in (("FCB", 1), ("FDB", 2)):
+        lim = 1 << (8 * width)
+        for k in range(6000 if thorough else 260):
+            r = rng(seed, "C05", mn, "mixed", k)
+            ln = r.choice([2, 2, 3, 4, 6, 9, 17, 40, 64])
+            org = r.choice([0x10, 0x40, 0x90] if width == 1 else [0x10, 0x90, 0x1000, 0x7FF0, 0xFE00])
+            lb, la = org, org + 2 + ln * width
+            consts = {"K%d" % i: r.choice([0, 1, 2, 127, 128, 200, 255] + ([256, 0x1234, 32768, 65535] if width == 2 else []) + [-1, -2, -128])
+                      for i in range(4)}
+            where = {n_: r.choice(["before", "after"]) for n_ in consts}
+            bad = r.random() < 0.15
+            badpos = r.randrange(ln) if bad else -1
+            items, exp, used = [], b"", set()
+            for i in range(ln):
+                kind = r.choice(["lit", "neg", "equ", "equ", "label", "expr", "expr"])
+                if i == badpos:
+                    kind = r.choice(["over", "negover", "expr-over", "label-over"] if width == 1 else ["over", "negover"])
+                if kind in ("lit", "neg", "over", "negover"):
+                    t, v = val_text(r, width, kind)
+                elif kind == "equ":
+                    t = r.choice(sorted(consts))
+                    v = consts[t] % lim
+                    used.add(t)
+                elif kind == "label":
+                    t = r.choice(["LB", "LA"])
+                    v = lb if t == "LB" else la
+                    if v >= lim:
+                        t, v = "1", 1
+                elif kind == "label-over":
+                    t, v = "LB+256", None
+                elif kind == "expr-over":
+                    t, v = r.choice(["K0+300", "255+1", "16*16", "LA+255"]), None
+                    used.add("K0")
+                    if consts["K0"] < 0:
+                        t = "255+1"
+                else:
+                    a = r.choice(sorted(consts) + ["LB", "LA", "3", "$10"])
+                    b = r.choice(["1", "2", "$10", "LB"] + sorted(consts))
+                    op = r.choice("+-*")
+                    av = consts.get(a, lb if a == "LB" else la if a == "LA" else int(a.replace("$", "0x"), 0) if a[0] in "$0123456789" else None)
+                    bv = consts.get(b, lb if b == "LB" else int(b.replace("$", "0x"), 0) if b[0] in "$0123456789" else None)
+                    val = av + bv if op == "+" else av - bv if op == "-" else av * bv
+                    labels = sum(1 for x in (a, b) if x in ("LB", "LA"))
+                    if not (0 <= val < lim) or (op == "*" and labels) or av < 0 or bv < 0:
+                        t, v = "2+3", 5            # keep to results the property states exactly
+                    else:
+                        t, v = a + op + b, val
+                        used.update(x for x in (a, b) if x in consts)
+                items.append(t)
+                if v is not None:
+                    exp += v.to_bytes(width, "big")
+            pre = ["%s EQU %d\n" % (n_, consts[n_]) for n_ in sorted(used) if where[n_] == "before"] + [" ORG $%X\n" % org, "LB NOP\n"]
+            post = ["LA NOP\n"] + ["%s EQU %d\n" % (n_, consts[n_]) for n_ in sorted(used) if where[n_] == "after"]
+            yield {"id": "%s/mixed/%d" % (mn, k), "mn": mn, "operand": ",".join(items), "expect": None if bad else exp.hex(),
+                   "form": "%s.list.%s" % (mn.lower(), "mixed-over" if bad else "mixed"), "pre": pre, "post": post,
+                   "traits": {"labels": any(x in t_ for t_ in items for x in ("LB", "LA")), "exprs": any(c in t_[1:] for t_ in items for c in "+-*")}}
     # the same symbol used by data directives of different widths in ONE program (each statement judged separately)
     for org in (0x80, 0x10, 0xF0):
         for order in (("FCB", "FDB", "FCB"), ("FDB", "FCB", "FDB"), ("FDB", "FDB", "FCB", "FCB")):
@@ -116,11 +174,15 @@ def gen_cases(tier, seed):
     for bad in ("-1", "65536", "70000"):
         yield {"id": "RMB/" + bad, "mn": "RMB", "operand": bad, "expect": None, "form": "rmb.over", "pre": [], "post": []}
     # directives that emit nothing
-    for mn, ops in (("EQU", ["5", "$1234"]), ("ORG", ["$2000", "0"]), ("SETDP", ["$10", "0"]), ("NAM", ["PROG", "x"]), ("END", ["", "START"])):
+    for mn, ops in (("EQU", ["5", "$1234", "K", "K+1"]), ("ORG", ["$2000", "0", "K", "K+$100"]),
+                    ("SETDP", ["$10", "0", "K", "K/256", "LAB", "LAB/256", "START/256", "LAB+1"]), ("NAM", ["PROG", "x"]),
+                    ("END", ["", "START", "LAB", "START+1", "K"])):
         for op in ops:
             label = "SYM " if mn == "EQU" else " "
-            yield {"id": "%s/%s" % (mn, op), "mn": mn, "operand": op, "expect": "", "form": "no-bytes." + mn.lower(), "pre": ["START NOP\n"] if mn == "END" else [], "post": [],
-                   "label": label.strip()}
+            pre = ["K EQU $2100\n"] + ([] if mn == "ORG" else [" ORG $3000\n", "START NOP\n"])
+            post = ["LAB NOP\n", " FDB LAB,START\n" if mn != "ORG" else " FDB LAB\n"]
+            yield {"id": "%s/%s" % (mn, op), "mn": mn, "operand": op, "expect": "", "form": "no-bytes." + mn.lower(), "pre": pre if mn != "ORG" or "K" in op else [],
+                   "post": post if "LAB" in op or mn == "SETDP" else [], "label": label.strip(), "whole_image": True}
 
 
 def run_case(case, ctx):
